@@ -80,7 +80,17 @@ def live (mode : Mode) (nmedia : Nat) (data legacy muxreq : Bool) (mat ksO ksA :
   let delivered : List Bool :=
     (List.range nmedia).map (fun i => if mode = .webrtc then true else sectionDelivered mode bundleO nmedia i)
   let dataT := if data then "1/1" else "-/-"
-  s!"conn=1 roles={roleText eps.1.role}/{roleText eps.2.role} setup={setupO}/{setupA} profile={profO}/{profA} keys={keysO}/{keysA} bundle={b01 bundleO}/{b01 bundleA} mux={b01 muxO}/{b01 muxA} ports={ports bundleO}/{ports bundleA} extra={extra bundleO}/{extra bundleA} data={dataT} rtp={bits delivered}/{bits delivered}"
+  -- both ends open channels of their own on the live connection: ids by `dcAlloc` from what each end has
+  -- registered at that moment (channel 0 of the offerer is known to both); all four messages arrive
+  let dc2T :=
+    if data then
+      let o1 := dcAlloc eps.1.role [0]
+      let a1 := dcAlloc eps.2.role [0]
+      let o2 := dcAlloc eps.1.role [0, o1, a1]
+      let a2 := dcAlloc eps.2.role [0, o1, a1, o2]
+      s!"{o1}.{a1}.{o2}.{a2}:1111"
+    else "-"
+  s!"conn=1 roles={roleText eps.1.role}/{roleText eps.2.role} setup={setupO}/{setupA} profile={profO}/{profA} keys={keysO}/{keysA} bundle={b01 bundleO}/{b01 bundleA} mux={b01 muxO}/{b01 muxA} ports={ports bundleO}/{ports bundleA} extra={extra bundleO}/{extra bundleA} data={dataT} rtp={bits delivered}/{bits delivered} dc2={dc2T}"
 
 def optHex (s : String) : Option (Option (List UInt8)) :=
   if s = "-" then some none else (unhex s).map some
